@@ -519,7 +519,7 @@ class UmModel:
 
 
 # ======================================================================================
-STALE_RE = re.compile(r"Stale TRXD message")
+STALE_RE = re.compile(r"\bstale\b", re.I)
 
 
 class Monitor:
@@ -779,7 +779,7 @@ class Monitor:
 			for S, b in definite + ambiguous:
 				hit = None
 				for l in logs:
-					if ("fn=%d " % b.fn) in l + " " or l.endswith("fn=%d" % b.fn):
+					if re.search(r"(?<!\d)%d(?!\d)" % b.fn, l):
 						hit = l
 						break
 				if hit is None:
@@ -794,7 +794,7 @@ class Monitor:
 					m.probe("wrap-ambiguous-stale")
 			for S, b in late:
 				for l in logs:
-					if ("fn=%d " % b.fn) in l + " " or l.endswith("fn=%d" % b.fn):
+					if re.search(r"(?<!\d)%d(?!\d)" % b.fn, l):
 						logs.remove(l)
 						S.queue.remove(b)
 						m.probe("wrap-ambiguous-stale")
